@@ -624,6 +624,68 @@ def r_reject(prog, R):
             r.ok(k, f.loc(f.ln), nontrivial=bool(cv))
 
 
+def _zero_rejecting(prog):
+    """{function name: index of the length parameter} for buffer primitives that fail when handed a zero length"""
+    out = {}
+    for f in prog.funcs.values():
+        if f.file != "src/lib/str/ares_buf.c" or (f.retw or f.ret) != "ares_status_t" or not f.name.startswith("ares_buf_fetch_"):
+            continue      # only "fetch exactly n bytes" primitives: for them n == 0 is an ordinary, legal field length
+        pidx = {p["n"]: k for k, p in enumerate(f.params)}
+        for b in f.blocks.values():
+            br = f.branch(b)
+            if not br:
+                continue
+            # the condition may be a disjunction: look at every comparison inside it
+            hit = None
+            for n in walk(br[0]):
+                if n.get("k") == "bin" and n["op"] == "==" and const_val(n["r"]) == 0:
+                    l = strip(n["l"])
+                    if l is not None and l.get("k") == "var" and l["n"] in pidx and l.get("ty", "").replace("const ", "") in ("unsigned long", "size_t"):
+                        hit = l["n"]
+            if hit is None:
+                continue
+            ts = f.blocks.get(br[1])
+            if ts is not None and any(el["k"] == "ret" and (name_of_const(el.get("e")) or "ARES_SUCCESS") != "ARES_SUCCESS" for el in ts.els):
+                out[f.name] = pidx[hit]
+    return out
+
+
+def r_zerolen(prog, R):
+    r = R.rule("R-C04-ZEROLEN", "a zero-length field that the RFC allows is not turned into a parse error: wire parsers call length-rejecting fetch primitives only with a length known to be non-zero", floor=8,
+               analysis="callee precondition (extracted) x dominating non-zero fact at every call site")
+    rej = _zero_rejecting(prog)
+    r.info["zero_rejecting_primitives"] = sorted(rej)
+    if not r.require("ares_buf_fetch_bytes_dup" in rej, "zero-rejecting primitives not recognised: %s" % sorted(rej)):
+        return
+    files = (C03.PARSE_C, C03.NAME_C, "src/lib/record/ares_dns_multistring.c", "src/lib/str/ares_buf.c")
+    for f in sorted(prog.funcs.values(), key=lambda x: x.key):
+        if f.file not in files or not ("parse" in f.name or "fetch_dnsname" in f.name):
+            continue
+        mf = None
+        for b, i, c in f.calls():
+            k2 = rej.get(c.get("callee"))
+            if k2 is None:
+                continue
+            a = strip(call_arg(c, k2))
+            if a is None or const_val(a) is not None:
+                continue
+            if mf is None:
+                mf = MustFacts(f, track_calls=False)
+            ak = key(a)
+            nz = False
+            for c3, p3 in mf.cond_facts_at(b, i):
+                op, l3, r3 = norm_cmp(c3, p3)
+                if key(l3) != ak:
+                    continue
+                if op == "truth" or (op in ("!=", ">") and r3 is not None and const_val(r3) == 0) or (op == ">=" and r3 is not None and (const_val(r3) or 0) >= 1):
+                    nz = True
+            kk = "fn=%s %s(%s) non-zero" % (f.name, c["callee"], render(a))
+            if nz:
+                r.ok(kk, f.loc(c["ln"]))
+            else:
+                r.viol(kk, f.name, f.loc(c["ln"]), "%s hands the wire-derived length '%s' to %s, which fails for 0, without testing it: a field of length zero that the RFC allows (empty option / SvcParam value, empty string) makes the whole message unparseable" % (f.name, render(a), c["callee"]))
+
+
 def run(prog, R, tier):
     R.assume("tables/iana.json reproduces the IANA registries and RFC bit layouts correctly (written from the RFCs, not from the code)")
     r_bits(prog, R)
@@ -632,3 +694,4 @@ def run(prog, R, tier):
     r_keymap(prog, R)
     r_escape(prog, R)
     r_reject(prog, R)
+    r_zerolen(prog, R)
